@@ -318,3 +318,43 @@ def check_no_rounding(ix, rep, rule='R-EXACT'):
                 rep.fail(rule, m.rel, f.qual, 'rounding:%s' % f.name, '`%s` rounds a quantity on the way from the written bound to the window: the precision is absolute in the default unit, '
                          'so `[0.5ns,1.5ns]` under unit s becomes [1ns,2ns] while the same bound under unit ns is kept' % ast.unparse(bad[0])[:40], bad[0].lineno)
     return n
+
+
+# ------------------------------------------------------------------------------------------------- R-REMAP (input variables)
+def check_variable_remap(ix, rep, rule='R-REMAP'):
+    """get_value(v) of an input variable is the data supplied for it.  The pastifier delays a variable that stands next to a future operator by
+    wrapping it (`once[h,h](v)`), and its visit() re-points every name of the visited node to the rewritten node: for a Variable that must be
+    the Variable inside the wrapper, not the wrapper -- otherwise get_value('v') reports what was fed h samples ago (-inf at first)"""
+    pcls = ix.find_class('rtamt.pastifier.stl.pastifier', 'StlPastifier')
+    if pcls is None:
+        raise AnalysisError('StlPastifier vanished')
+    vv = ix.resolve_method(pcls, 'visitVariable')
+    vis = ix.resolve_method(pcls, 'visit')
+    if vv is None or vis is None:
+        raise AnalysisError('StlPastifier.visit / visitVariable vanished')
+    rep.analysed(vv)
+    rep.analysed(vis)
+    # can visitVariable return something that is not a Variable?
+    wrappers = [c for c in ast.walk(vv.node) if isinstance(c, ast.Call) and isinstance(c.func, ast.Name) and c.func.id not in ('Variable', 'Interval') and c.func.id[:1].isupper()]
+    remaps = [n for n in ast.walk(vis.node) if (isinstance(n, ast.Call) and isinstance(n.func, ast.Attribute) and n.func.attr == 'update' and 'phi_name_to_node_dict' in ast.unparse(n.func.value))
+              or (isinstance(n, ast.Assign) and any(isinstance(t, ast.Subscript) and 'phi_name_to_node_dict' in ast.unparse(t.value) for t in n.targets))]
+    binds = {}
+    for n in ast.walk(vis.node):
+        if isinstance(n, ast.Assign) and len(n.targets) == 1 and isinstance(n.targets[0], ast.Name) and 'phi_name_to_node_dict' in ast.unparse(n.value):
+            binds[n.targets[0].id] = True
+    remaps += [n for n in ast.walk(vis.node) if isinstance(n, ast.Call) and isinstance(n.func, ast.Attribute) and n.func.attr == 'update' and isinstance(n.func.value, ast.Name) and n.func.value.id in binds]
+    remaps += [n for n in ast.walk(vis.node) if isinstance(n, ast.Assign) and any(isinstance(t, ast.Subscript) and isinstance(t.value, ast.Name) and t.value.id in binds for t in n.targets)]
+    if not wrappers:
+        rep.ok(rule, vv.module.rel, vv.qual, 'variable-name', 'a variable is rewritten to a variable', vv.node.lineno)
+        return 1
+    if not remaps:
+        rep.ok(rule, vis.module.rel, vis.qual, 'variable-name', 'names are not re-pointed by visit()', vis.node.lineno)
+        return 1
+    special = any(isinstance(c, ast.Call) and isinstance(c.func, ast.Name) and c.func.id == 'isinstance' and len(c.args) == 2 and 'Variable' in ast.unparse(c.args[1]) for c in ast.walk(vis.node))
+    if special:
+        rep.ok(rule, vis.module.rel, vis.qual, 'variable-name', 'the name of a variable is re-pointed to the Variable node, not to the delay wrapped round it', vis.node.lineno)
+    else:
+        rep.fail(rule, vis.module.rel, vis.qual, 'variable-name', 'visitVariable may return `%s(...)` (the variable delayed by the remaining look-ahead) and visit() re-points the variable\'s name to whatever '
+                 'it returns: after pastify() get_value(v) of an input variable next to a future operator is the delayed copy -- `out = (eventually[0,2](a >= 1)) and b`: get_value(\'b\') is -inf, -inf, '
+                 'b[0], b[1], ... instead of the data supplied' % wrappers[0].func.id, vis.node.lineno)
+    return 1
